@@ -10,6 +10,7 @@ mod canon;
 mod pkt;
 mod props;
 mod rt;
+mod sha256;
 
 use rt::Tier;
 
@@ -83,7 +84,7 @@ fn main() {
             }
             if tier == Tier::Miri {
                 // under Miri there is no process spawning: run a single shard in-process
-                let out = format!("{}/work/{}-miri.json", rt::VERIF_DIR, spec.id);
+                let out = format!("{}/work/{}-miri.json", rt::verif_dir(), spec.id);
                 let code = rt::run_child(spec, tier, seed, 0, 1, &out);
                 std::process::exit(code);
             }
